@@ -53,9 +53,9 @@ GInit ==
     \/ \E s \in Setting : \E form \in {<<"short", "table">>, <<"long", "hyphen">>, <<"long", "root">>} :
            \E S \in {{"cli"}, {"file"}} : \E a \in Assignments(s, S) :
                case = Case(Triples(s, S, a) \cup Ctx(s), {s}, form[1], form[2], "plain")
-    \/ \E S \in (SUBSET Srcs) \ {{}} :
+    \/ \E S \in (SUBSET Srcs) \ {{}} : \E cf \in {"long", "long_reversed", "short_reversed"} :
            case = Case(UNION {Triples(s, S, [src \in S |-> IF s \in Bool THEN (IF s = "all" THEN "false" ELSE "true") ELSE Val(s, src)]) : s \in Setting},
-                       Setting, "long", "table", "comments_quotes")
+                       Setting, cf, "table", "comments_quotes")
     \/ /\ Depth >= 2
        /\ \E s2 \in CorsOther, S1 \in {{"file"}, {"cli"}, {"file", "cli"}, {"env", "file"}}, S2 \in {{"file"}, {"env"}, {"cli"}} :
             \E a1 \in Assignments("all", S1), a2 \in Assignments(s2, S2) : \E st \in {"plain", "reordered_spaces"} :
